@@ -21,11 +21,11 @@ PROP = "C02"
 LEVEL = "proof"
 GEN_UNITS = ["GenUtils", "GenUtils2", "GenUtils3", "GenKernels", "GenKernels3", "GenMethods3"]   # Props/C02.v states C02_dimscheck_align / C02_ttv_dense_req / C02_ttm_dense_req over the generated tt_dimscheck,
                                         # C02_ttt_dense_req / C02_to_tenmat_req_* over the generated gather_wrap_dims
-COQ_TARGETS = ["Props/C02.vo", "Model/C02Harness.vo", "Model/Harness.vo", "Props/W3C02.vo", "Props/W3C02b.vo", "Props/W3Methods3.vo"]
-THEOREM_FILES = ["Props/C02.v", "Props/W3C02.v", "Props/W3C02b.v", "Props/W3Methods3.v"]
+COQ_TARGETS = ["Props/C02.vo", "Props/C02w4.vo", "Props/C02w4b.vo", "Model/C02Harness.vo", "Model/C02HarnessW4.vo", "Model/Harness.vo", "Props/W3C02.vo", "Props/W3C02b.vo", "Props/W3Methods3.vo"]
+THEOREM_FILES = ["Props/C02.v", "Props/C02w4.v", "Props/C02w4b.v", "Props/W3C02.v", "Props/W3C02b.v", "Props/W3Methods3.v"]
 COQ_IMPORTS = ("From Coq Require Import List ZArith Bool Arith QArith Qcanon.\n"
                "From PV Require Import Base.Index Base.Perm Base.Sum Np.Array Model.Sparse Model.Repr Model.Harness "
-               "Np.NpZ Np.NpZ2 Gen.GenUtils Gen.GenUtils2 Model.C02TenmatReq Model.C02DimsReq Model.C02Spec Model.C02Dense Model.C02Sparse Model.C02Modes Model.C02Kruskal Model.C02SpKernels Model.C02Absorb Model.C02Tenmat Model.C02SpMore Model.C02KruskalMore Model.C02Tucker Model.C02TuckerFull Model.C02Harness.\n")
+               "Np.NpZ Np.NpZ2 Gen.GenUtils Gen.GenUtils2 Model.C02TenmatReq Model.C02DimsReq Model.C02Spec Model.C02Dense Model.C02Sparse Model.C02Modes Model.C02Kruskal Model.C02SpKernels Model.C02Absorb Model.C02Tenmat Model.C02SpMore Model.C02KruskalMore Model.C02Tucker Model.C02TuckerFull Model.C02Harness Model.C02HarnessW4.\n")
 RULE = ("mttkrp/mttkrps additionally on 4-, 5- and 6-way tensors (<= ~200 entries) with skewed and balanced shapes so that every "
         "split index of min_split and Khatri-Rao products of >= 2 matrices occur in each helper; dims orders include cyclic "
         "(non-involutive) ones; otherwise shapes with <= 4 modes / <= 72 entries incl. distinct sizes (2,3,4), singleton modes and 1-way; every non-empty mode "
@@ -34,27 +34,34 @@ RULE = ("mttkrp/mttkrps additionally on 4-, 5- and 6-way tensors (<= ~200 entrie
         "sides of the 50% switch; Kruskal MTTKRP operands with non-unit weights; sparse operands with no / exactly one stored entry of several "
         "origins (empty arrays, shape only, exact cancellation (S+T)-T) in every sparse product; multiplicands and Kruskal / Tucker factor matrices "
         "in C / F / strided / transposed-view layouts; factor lists of mixed dtype (int64, float32, float64 with dyadic entries); structured Tucker "
-        "operands (repeated / orthonormal unit-length selection columns) on both sides of ttensor.norm's size switch; result containers pinned. "
+        "operands (repeated / orthonormal unit-length selection columns) on both sides of ttensor.norm's size switch; result containers pinned; "
+        "dense operands ENLARGED by assignment (C-ordered data) in every dense kernel and on both sides of innerprod / ttt / mask, Tucker cores grown and kept "
+        "by reference; very sparse long-mode operands whose stored entries collide in the result (vector-valued ttv named five ways, mttkrp of every mode, "
+        "collapse, ttm); masks without any nonzero (sparse from empty arrays / shape only, dense all-zero) for Kruskal / dense / sparse holders. "
         "non-trivial = more than one cell and a nonzero entry; distinct = distinct (op, arguments)")
 EXPLANATION = ("Correspondence compares pyttb's raw result with spec_op applied to the denotation of the operand literal "
                "(exact integers in Z; the norm in Qc) and, for every kernel with an algorithm model, with impl_op as well. Theorems in "
                "Props/C02.v state impl_op = spec_op for all shapes and all values of a commutative ring: dense ttv / ttm (single and list form, "
                "request resolved by the GENERATED tt_dimscheck, also in the caller's own order), dense mttkrp (all branches), Kruskal-operand weight absorption, "
                "dense ttt / collapse (any reducer) / contract / scale / mask via to_tenmat, dense / sparse / Kruskal innerprod and norm, sparse ttv (any mode set), "
-               "ttm, collapse, contract, scale, mask and mttkrp, Kruskal ttv (any mode set) and mttkrp, Tucker ttm / ttv / mttkrp, linearity over sums.")
+               "ttm, collapse, contract, scale, mask and mttkrp, Kruskal ttv (any mode set) and mttkrp, Tucker ttm / ttv / mttkrp, linearity over sums. "
+               "Props/C02w4.v / C02w4b.v (wave 4): mttkrp AS CALLED with a Kruskal operand over the GENERATED get_mttkrp_factors for all four holders, ttv AS CALLED "
+               "for sparse / Kruskal / Tucker holders and ttm AS CALLED for sparse / Tucker holders over the GENERATED tt_dimscheck in the caller's order, ttsv, Tucker x sparse innerprod, collapse in the "
+               "caller's order, mttkrps (C12's byte-level algorithm) in C02's terms.")
 CORRESPONDENCE_ONLY = [
-    "dense mttkrps (algorithm with min_split / mttv_left / mttv_mid: no algorithm model; compared entry-wise with spec_mttkrp for every mode on 4-, 5-, 6-way tensors covering every split index)",
-    "dense ttsv (spec only); the sparse / Kruskal / Tucker kernels take the modes already sorted by tt_dimscheck (only the dense ttv / ttm / collapse / scale / ttt "
-    "are stated over the GENERATED tt_dimscheck / gather_wrap_dims); invariance of spec_collapse / spec_scale under the order of dims is not proved",
-    "the choice of the result container (scalar / ndarray / tensor / sptensor and the 50% switch of sptensor.ttv / contract: evaluated in Coq on the expected array, no theorem), "
-    "sptensor.collapse with a reducer other than sum",
-    "Kruskal mask; Kruskal innerprod with a dense / sparse / Tucker operand is proved at the level of the arrays (C02_innerprod_kruskal_any: the weighted sum of "
-    "the operand's all-mode ttv with the factor columns) and composed by hand with the operand's proved ttv; its executable form is compared with pyttb for dense and sparse operands",
-    "Tucker innerprod with a sparse operand (dense operand: proved on both sides of the size switch; Tucker operand: proved; Kruskal operand: see Kruskal), reconstruct with "
-    "samples (= the proved full() of the row-sampled factors; the row selection itself is done by the harness); Tucker mttkrp with a Kruskal operand is the "
-    "proved factor-list theorem composed with C02_mttkrp_kruskal_operand by hand",
-    "sumtensor operations as executed part by part (linearity of the defining sums is proved: C02_sum_linear_*)",
-    "mixed-dtype factor lists (int64 / float32 / float64) and memory layouts of operands: the theorems speak about values; dtype promotion and layout are covered by generated inputs only",
+    "sumtensor operations as executed part by part (linearity of the defining sums is proved: C02_sum_linear_*); reconstruct with samples (= the proved full() "
+    "of the row-sampled factors; the row selection itself is done by the harness)",
+    "the choice of the result container (scalar / ndarray / tensor / sptensor and the 50% switch of sptensor.ttv / contract: evaluated in Coq on the expected "
+    "array, no theorem; both sides denote the same array: C02_sparse_switch); sptensor.collapse with a reducer other than sum",
+    "Kruskal mask: proved by C08 (Props/C08b.v C08_mask: ktensor.mask's accumulation loop = the denoted array at every listed subscript), not duplicated here; "
+    "Kruskal innerprod with a dense / sparse / Tucker operand is proved at the level of the arrays (C02_innerprod_kruskal_any) and composed by hand with the "
+    "operand's proved ttv; its executable form is compared with pyttb for dense and sparse operands",
+    "request resolution of sptensor.scale / sptensor.collapse (dims=None) / contract argument checks (ttv and ttm of the dense, sparse and Tucker classes, Kruskal ttv, "
+    "dense collapse / scale / ttt are stated over the GENERATED tt_dimscheck / gather_wrap_dims); ttsv 'version 1' (= tensor.ttv with N copies of the vector: covered by C02_ttv_dense_req) is "
+    "not restated; Tucker mttkrp / ttv with a Kruskal or factor-list operand: proved (C02_mttkrp_tucker_kruskal_gen, C02_ttv_tucker_req_caller)",
+    "mixed-dtype factor lists (int64 / float32 / float64), memory layouts and construction histories of operands (C-ordered data of a tensor grown by assignment, "
+    "strided / transposed views, re-assigned factor matrices, cores kept by reference): the theorems speak about values; dtype promotion, layout and history are "
+    "covered by generated inputs only",
 ]
 ASSUMPTIONS = [
     "numpy transpose / F-order reshape / matmul / fancy indexing behave as the tabulate-style definitions of Np/Array.v and Model/C02Dense.v",
@@ -62,7 +69,9 @@ ASSUMPTIONS = [
     "sptensor operands fed to the proved sparse kernels are well formed (distinct in-bounds subscripts), as produced by the generator",
     "accumarray / sptensor.from_aggregator with the sum reducer return, for each output subscript, the sum of the values with that subscript "
     "(contract proved for C03's model: from_aggregator_correct); the sparse ttv / mttkrp models are written against that contract",
-    "tt_dimscheck / gather_wrap_dims are the texts translated into Gen/GenUtils.v / Gen/GenUtils2.v on this run (translator trusted; re-checked by the C17 correspondence stream)",
+    "tt_dimscheck / gather_wrap_dims / get_mttkrp_factors are the texts translated into Gen/GenUtils.v / Gen/GenUtils2.v / Gen/GenUtils3.v on this run (translator "
+    "trusted; re-checked by the C17 correspondence stream); every mttkrp case also evaluates the generated get_mttkrp_factors in Coq and compares it with the hand model",
+    "C02_mttkrps_dense imports C12's byte-level theorem (Proofs/C12Reshape.v C12_mttkrps_bytes_py) and C09's bridge lemma (Proofs/C09Holders.v spec_mttkrp_den)",
 ]
 
 SHAPES_Q = [[3], [1], [2, 3], [3, 2], [1, 3], [3, 3], [2, 3, 4], [4, 3, 2], [2, 1, 3], [2, 2, 2], [3, 2, 1, 4], [2, 3, 2, 2]]
@@ -754,11 +763,19 @@ def coq_check(c, o):
             order = sorted(range(len(dims)), key=lambda j: dims[j])
             sd, sv = [dims[j] for j in order], [vs[j] for j in order]
             e += " && " + gmatch(rs, f"(zimpl_ttv_sp {tgen.gsparse(X['shape'], X['subs'], X['vals'])} {gnlist(sd)} {gvecs(sv)})", ob)
+            # the raw request as written by the caller, resolved by the GENERATED tt_dimscheck (Proofs/C02ReqGen.v, C02_ttv_sparse_req_caller)
+            rq = (f"(zttv_req_sp {tgen.gsparse(X['shape'], X['subs'], X['vals'])} {gopt(a['dims'], gzlist)} "
+                  f"{gopt(a['excl'], gzlist)} {gvecs(a['vecs'])})")
+            e += f" && zres_ok {rq} && " + gmatch(rs, f"(zmemo {gnlist(rs)} (zres_get (fun _ => 0%Z) {rq}))", ob)
         if X["rep"] == "t" and obs_ints(ob) and (ob["k"] == "scalar" or (ob["k"] == "ttensor" and ob["core"]["k"] == "dense")):
             # ttensor.ttv (Model/C02Tucker.v): raw new core and remaining factors; no mode left: float(newcore)
             order = sorted(range(len(dims)), key=lambda j: dims[j])
             sd, sv = [dims[j] for j in order], [vs[j] for j in order]
             mdl = f"(zimpl_ttv_t {tgen.gttensor(X['core_shape'], X['core_data'], X['factors'])} {gnlist(sd)} {gvecs(sv)})"
+            # ... and the raw request resolved by the GENERATED tt_dimscheck (C02_ttv_tucker_req_caller): the same Tucker tensor
+            rq = (f"(zttv_req_t {tgen.gttensor(X['core_shape'], X['core_data'], X['factors'])} {gopt(a['dims'], gzlist)} "
+                  f"{gopt(a['excl'], gzlist)} {gvecs(a['vecs'])})")
+            e += f" && zres_ok {rq} && t_eqb (zres_get {mdl} {rq}) {mdl}"
             if ob["k"] == "ttensor":
                 e += (f" && t_eqb {mdl} (mkT {tgen.gdense(ob['core']['shape'], ob['core']['data'])} "
                       f"[{'; '.join(gmat(f_) for f_ in ob['factors'])}])")
@@ -769,6 +786,10 @@ def coq_check(c, o):
             order = sorted(range(len(dims)), key=lambda j: dims[j])
             sd, sv = [dims[j] for j in order], [vs[j] for j in order]
             mdl = f"(zimpl_ttv_k {tgen.gktensor(X['weights'], X['factors'])} {gnlist(sd)} {gvecs(sv)})"
+            # ... and the raw request resolved by the GENERATED tt_dimscheck (C02_ttv_kruskal_req_caller): the same Kruskal tensor
+            rq = (f"(zttv_req_k {tgen.gktensor(X['weights'], X['factors'])} {gopt(a['dims'], gzlist)} "
+                  f"{gopt(a['excl'], gzlist)} {gvecs(a['vecs'])})")
+            e += f" && zres_ok {rq} && k_eqb (zres_get {mdl} {rq}) {mdl}"
             if ob["k"] == "ktensor":
                 e += f" && k_eqb {mdl} {tgen.gktensor(ob['weights'], ob['factors'])}"
             else:
@@ -801,6 +822,12 @@ def coq_check(c, o):
             items_s = "; ".join(f"({m_}%nat, ({len(U[0]) if a['tr'] else len(U)}%nat, {gmat(U)}))" for m_, U in sorted(prs, key=lambda p: p[0]))
             e += (f" && t_eqb (zimpl_ttm_t {tgen.gttensor(X['core_shape'], X['core_data'], X['factors'])} [{items_s}] {trb}) "
                   f"(mkT {tgen.gdense(ob['core']['shape'], ob['core']['data'])} [{'; '.join(gmat(f_) for f_ in ob['factors'])}])")
+            # the raw request resolved by the GENERATED tt_dimscheck (Proofs/C02ReqGenTtm.v, C02_ttm_tucker_req_caller)
+            ms = "[" + "; ".join(f"({len(U[0]) if a['tr'] else len(U)}%nat, {gmat(U)})" for U in a["mats"]) + "]"
+            rq = (f"(zttm_req_t {tgen.gttensor(X['core_shape'], X['core_data'], X['factors'])} {gopt(a['dims'], gzlist)} "
+                  f"{gopt(a['excl'], gzlist)} {ms} {trb})")
+            obsT = f"(mkT {tgen.gdense(ob['core']['shape'], ob['core']['data'])} [{'; '.join(gmat(f_) for f_ in ob['factors'])}])"
+            e += f" && zres_ok {rq} && t_eqb (zres_get {obsT} {rq}) {obsT}"
         if X["rep"] == "sparse":
             # sptensor.ttm: the first sorted mode on the coordinate list (Model/C02SpMore.v), its (dense) result through tensor.ttm for the others
             sp = sorted(prs, key=lambda p: p[0])
@@ -811,6 +838,11 @@ def coq_check(c, o):
             for n_, U in sp[1:]:
                 m = f"(zimpl_ttm_dense {m} {n_} {gmat(U)} {len(U[0]) if a['tr'] else len(U)} {trb})"
             e += " && " + gmatch(rs, f"(zden {m})", ob)
+            # the raw request resolved by the GENERATED tt_dimscheck (C02_ttm_sparse_req_caller)
+            ms = "[" + "; ".join(f"({len(U[0]) if a['tr'] else len(U)}%nat, {gmat(U)})" for U in a["mats"]) + "]"
+            rq = (f"(zttm_req_sp {tgen.gsparse(X['shape'], X['subs'], X['vals'])} {gopt(a['dims'], gzlist)} "
+                  f"{gopt(a['excl'], gzlist)} {ms} {trb})")
+            e += f" && zres_ok {rq} && " + gmatch(rs, f"(zden (zres_get (mkDense (@nil nat) (@nil Z)) {rq}))", ob)
         return e
     if c.op in ("mttkrp", "mttkrps"):
         U = a["U"]
@@ -824,7 +856,12 @@ def coq_check(c, o):
         if c.op == "mttkrp":
             e = one(a["n"], ob) + gkind(c, ob, None, None)
             # the factor list the kernels receive: get_mttkrp_factors absorbs a Kruskal operand's weights (Model/C02Absorb.v)
-            UsK = Us if U["weights"] is None else f"(zget_mttkrp_factors_k {lam} {Us} {a['n']})"
+            # ... and what the translator-GENERATED get_mttkrp_factors (Gen/GenUtils3.v, Model/C02HarnessW4.v) returns for this operand: it must
+            # accept, agree with the hand model, and ITS list is what the kernel models below receive
+            UsH = Us if U["weights"] is None else f"(zget_mttkrp_factors_k {lam} {Us} {a['n']})"
+            lamo = "None" if U["weights"] is None else f"(Some {lam})"
+            UsK = f"(zgen_mttkrp_factors {lamo} {Us} {a['n']})"
+            e += f" && zgen_mttkrp_accepts {lamo} {Us} {a['n']} && zfactors_eqb {UsK} {UsH}"
             if X["rep"] == "dense" and ob["k"] == "array" and obs_ints(ob):
                 e += (f" && dense_eqb (zimpl_mttkrp_dense {tgen.gdense(X['shape'], X['data'])} "
                       f"{UsK} {a['n']} {R}) {tgen.gdense(ob['shape'], ob['data'])}")
@@ -838,7 +875,13 @@ def coq_check(c, o):
             return e
         if ob["k"] != "list" or len(ob["items"]) != N:
             return "false"
-        return " && ".join(one(n, ob["items"][n]) for n in range(N))
+        e = " && ".join(one(n, ob["items"][n]) for n in range(N))
+        if (X["rep"] == "dense" and N >= 2 and all(d >= 1 for d in shp) and all(it["k"] == "array" for it in ob["items"]) and obs_ints(ob)):
+            # the byte-level algorithm (min_split, both sweeps, mttv_left / mttv_mid: C12's mttkrps_b, C02_mttkrps_dense) at the split index
+            # the code computes; a Kruskal operand's weights scale the columns of every result
+            lits = "[" + "; ".join(tgen.gdense(it["shape"], it["data"]) for it in ob["items"]) + "]"
+            e += f" && zmttkrps_ok {tgen.gdense(X['shape'], X['data'])} {Us} {lam} {R} {lits}"
+        return e
     if c.op == "innerprod":
         if ob["k"] != "scalar" or not isinstance(ob["v"], int):
             return "false"
@@ -854,6 +897,11 @@ def coq_check(c, o):
             Tt, Xd = (X, Y) if reps[0] == "t" else (Y, X)
             e += (f" && (zimpl_innerprod_t_dense {tgen.gttensor(Tt['core_shape'], Tt['core_data'], Tt['factors'])} "
                   f"{tgen.gdense(Xd['shape'], Xd['data'])} =? {gz(ob['v'])})%Z")
+        if reps in (("t", "sparse"), ("sparse", "t")):     # ttensor.innerprod(sptensor), both sides of its size switch (C02_innerprod_tucker_sparse)
+            Tt, Ss = (X, Y) if reps[0] == "t" else (Y, X)
+            if len(shape_of(Tt)) >= 1:
+                e += (f" && (zimpl_innerprod_t_sp {tgen.gttensor(Tt['core_shape'], Tt['core_data'], Tt['factors'])} "
+                      f"{tgen.gsparse(Ss['shape'], Ss['subs'], Ss['vals'])} =? {gz(ob['v'])})%Z")
         if reps == ("t", "t"):                             # ttensor.innerprod(ttensor): smaller core first
             e += (f" && (zimpl_innerprod_tt {tgen.gttensor(X['core_shape'], X['core_data'], X['factors'])} "
                   f"{tgen.gttensor(Y['core_shape'], Y['core_data'], Y['factors'])} =? {gz(ob['v'])})%Z")
@@ -966,7 +1014,11 @@ def coq_check(c, o):
         dims = list(range(first, N))
         rs = shp[:first]
         f = f"(zsp_ttv {dX} {gnlist(shp)} {gnlist(dims)} {gvecs([a['v']] * len(dims))})"
-        return gmatch(rs, f, ob)
+        e = gmatch(rs, f, ob)
+        if a["ver"] in (None, 2) and ob["k"] in ("dense", "array", "scalar") and obs_ints(ob):
+            # the "version 2" loop (Model/C02Ttsv.v, C02_ttsv_dense): raw result
+            e += f" && dense_eqb (zimpl_ttsv {tgen.gdense(X['shape'], X['data'])} {gzlist(a['v'])} {first}) {_dlit(ob)}"
+        return e
     raise ValueError(c.op)
 
 
@@ -1102,7 +1154,29 @@ def oracle(c, o):
 
 
 # ---------------------------------------------------------------- known findings
-# All C02 findings (A-02, A-03, A-04, A-05, A-49, A-50, A-51) are repaired in /repo (findings.d/C02.jsonl: "fixed");
-# no trigger attributes a mismatch any more: every disagreement is reported.
-TRIGGERS = {}
-WITNESSES = {}
+# A-02, A-03, A-04, A-05, A-49, A-50, A-51 are repaired in /repo (findings.d/C02.jsonl: "fixed"): no attribution, every disagreement is reported.
+# Open: C02-N1 (wave 4) - tensor.mask / sptensor.mask with a sparse mask that stores no entry (proposed repair fixes/C02-N1.diff).
+def _trig_mask_empty_sparse(c):
+    """exactly the failing class: the mask is an sptensor without stored entry AND the data are held dense or sparse (Kruskal: repaired)"""
+    a = c.args
+    return (c.op == "mask" and a["W"]["rep"] == "sparse" and not a["W"]["subs"] and a["X"]["rep"] in ("dense", "sparse"))
+
+
+def _wit_mask_empty_sparse():
+    import numpy as np
+    import pyttb as ttb
+    D = ttb.tensor(np.array([[4.0, 0.0, -3.0], [-8.0, 0.0, 6.0]]))
+    bad = []
+    for X, nm in ((D, "tensor"), (D.to_sptensor(), "sptensor")):
+        for W in (ttb.sptensor(shape=(2, 3)), ttb.sptensor(np.zeros((0, 2), dtype=int), np.zeros((0, 1)), (2, 3))):
+            try:
+                r = np.asarray(X.mask(W))
+                if r.size != 0:
+                    bad.append(f"{nm}.mask(empty sptensor) returned {r.size} value(s), shape {r.shape}")
+            except Exception as ex:
+                bad.append(f"{nm}.mask(empty sptensor) raised {type(ex).__name__}")
+    return "; ".join(sorted(set(bad))) or None
+
+
+TRIGGERS = {"mask_empty_sparse_mask_dense_or_sparse_holder": _trig_mask_empty_sparse}
+WITNESSES = {"C02-N1": _wit_mask_empty_sparse}
